@@ -55,11 +55,11 @@ func populated() storage.Store {
 	for gi, name := range []string{"?a", "?b", "?g"} {
 		g, _ := st.NewGraph(ctx, name)
 		var ts []*triple.Triple
-		for i := 0; i < 14; i++ {
+		for i := 0; i < 7; i++ {
 			t, _ := triple.New(qNodes[(i+gi)%len(qNodes)], qPreds[(i*3+gi)%len(qPreds)], qObjs[(i*5+gi)%len(qObjs)])
 			ts = append(ts, t)
 		}
-		for i := 0; i < 6; i++ {
+		for i := 0; i < 4; i++ {
 			t, _ := triple.New(qNodes[i%len(qNodes)], qPreds[i%2], qNums[(i+gi)%len(qNums)])
 			ts = append(ts, t)
 		}
